@@ -1,6 +1,6 @@
 """C19 - vector algebra and geometric queries: index tables and reduction offsets (no numerics)"""
 from .extract import AnalysisBroken
-from .facts import as_assign, estr, unwrap, walk
+from .facts import as_assign, estr, need_names, unwrap, walk
 from .readers import strip_casts
 
 VEC = "OpenVolumeMesh::Geometry::VectorT<"
@@ -163,6 +163,7 @@ def run(ck, fb, fbd):
             continue
         if f.name == "vector":
             ng += 1
+            need_names(f, ["e"], None, "C19.geom")
             rets = [x for b, i, x in f.tops() if x.get("k") == "ret"]
             s = estr(rets[0]) if rets else ""
             ok = "vertex(e.to_vertex()) - vertex(e.from_vertex())" in s
@@ -187,6 +188,7 @@ def run(ck, fb, fbd):
                 (ck.ok if ok else lambda r, w, t: ck.violate(r, w, t, "C19.geom:barycenter_%s" % ("face" if "FH" in pt else "cell")))("C19.geom", f.where, "barycenter(%s) averages the positions delivered by %s (each vertex once) and divides by their number" % ("face" if "FH" in pt else "cell", circ))
         if f.name == "normal":
             ng += 1
+            need_names(f, ["p1", "p2", "p3"], None, "C19.geom")
             txt = " ".join(estr(x) for b, i, x in f.tops())
             ok = "(p2 - p1).cross((p3 - p2))" in txt.replace("this.", "") and "normalized()" in txt
             (ck.ok if ok else lambda r, w, t: ck.violate(r, w, t, "C19.geom:normal"))("C19.geom", f.where, "normal() = ((p2-p1) x (p3-p2)).normalized()")
